@@ -165,9 +165,9 @@ def rbJ (r : RBRes) : Lean.Json :=
     ("skipped", pvalJ r.shSkipped), ("failed", pvalJ r.shFailed)]
 
 def lastSortTags (text : Str) : List String :=
-  let i := rfind sortTok text
-  let sl := sliceFrom text i
-  [if i.isSome then "tok" else "notok", if (reSearch sl).isSome then "match" else "nomatch"]
+  match rfind sortTok text with
+  | none => ["notok", "nomatch"]
+  | some i => ["tok", if isPrefix sortLit (text.drop (i + 1)) then "match" else "nomatch"]
 
 def handle (op : String) (a : Lean.Json) : Except String Lean.Json := do
   match op with
